@@ -37,7 +37,7 @@ func gen(args []string) {
 	repo := fs.String("repo", "/repo", "")
 	fs.Parse(args)
 	for _, p := range fs.Args() {
-		cs, err := eng.BuildContractSet(*repo+"/"+p, "/verif/contracts/"+p, "/verif/stdlib")
+		cs, err := eng.BuildContractSet(*repo+"/"+p, verifRoot()+"/contracts/"+p, verifRoot()+"/stdlib")
 		if err != nil {
 			fmt.Fprintln(os.Stderr, err)
 			os.Exit(2)
@@ -70,7 +70,7 @@ func dev(args []string) {
 	moddir := fs.String("moddir", "", "load packages of another module: -moddir DIR ./pkg ...")
 	fs.Parse(args)
 	t0 := time.Now()
-	cfg := eng.Config{RepoDir: *repo, Pkgs: fs.Args(), MirrorDir: "/verif/contracts", StdlibDir: "/verif/stdlib"}
+	cfg := eng.Config{RepoDir: *repo, Pkgs: fs.Args(), MirrorDir: verifRoot() + "/contracts", StdlibDir: verifRoot() + "/stdlib"}
 	if *family == "router" {
 		os.MkdirAll(*scratch, 0o755)
 		var sets []eng.RouteSet
@@ -90,7 +90,7 @@ func dev(args []string) {
 		for _, rs := range sets {
 			cfg.Extra = append(cfg.Extra, eng.ExtraPkg{Dir: mod + "/" + rs.ID, Pattern: "./" + rs.ID})
 		}
-		cfg.Extra = append(cfg.Extra, eng.ExtraPkg{Dir: *repo + "/uri", Pattern: "github.com/ogen-go/ogen/uri", Mirror: "/verif/contracts/uri"})
+		cfg.Extra = append(cfg.Extra, eng.ExtraPkg{Dir: *repo + "/uri", Pattern: "github.com/ogen-go/ogen/uri", Mirror: verifRoot() + "/contracts/uri"})
 	}
 	if *moddir != "" {
 		cfg.ModDir = *moddir
@@ -117,12 +117,12 @@ func dev(args []string) {
 		for _, q := range sets {
 			cfg.Extra = append(cfg.Extra, eng.ExtraPkg{Dir: mod + "/" + q.ID, Pattern: "./" + q.ID})
 		}
-		cfg.Extra = append(cfg.Extra, eng.ExtraPkg{Dir: *repo + "/validate", Pattern: "github.com/ogen-go/ogen/validate", Mirror: "/verif/contracts/validate"})
+		cfg.Extra = append(cfg.Extra, eng.ExtraPkg{Dir: *repo + "/validate", Pattern: "github.com/ogen-go/ogen/validate", Mirror: verifRoot() + "/contracts/validate"})
 	}
 	if *family == "params" {
 		os.MkdirAll(*scratch, 0o755)
 		var sets []eng.ParamSet
-		for _, q := range eng.ParamFamily() {
+		for _, q := range append(eng.ParamFamily(), eng.ParamFamilySampled(16)...) {
 			if *setsFlag == "" || strings.Contains(","+*setsFlag+",", ","+q.ID+",") {
 				sets = append(sets, q)
 			}
@@ -137,7 +137,7 @@ func dev(args []string) {
 		for _, q := range sets {
 			cfg.Extra = append(cfg.Extra, eng.ExtraPkg{Dir: mod + "/" + q.ID, Pattern: "./" + q.ID})
 		}
-		cfg.Extra = append(cfg.Extra, eng.ExtraPkg{Dir: *repo + "/uri", Pattern: "github.com/ogen-go/ogen/uri", Mirror: "/verif/contracts/uri"})
+		cfg.Extra = append(cfg.Extra, eng.ExtraPkg{Dir: *repo + "/uri", Pattern: "github.com/ogen-go/ogen/uri", Mirror: verifRoot() + "/contracts/uri"})
 	}
 	if *family == "cred" {
 		os.MkdirAll(*scratch, 0o755)
@@ -290,4 +290,12 @@ func check(args []string) {
 	}
 	r := eng.RunCheck(prop, eng.CheckOptions{VerifDir: *verif, RepoDir: *repo, Tier: tier, Seed: seed, Timeout: to, DumpDir: *dump, Verbose: *verbose, OutDir: *out})
 	os.Exit(r.ExitCode)
+}
+
+// verifRoot: the directory holding contracts/ and stdlib/ for the dev command (GOVC_VERIF_ROOT, default /verif).
+func verifRoot() string {
+	if v := os.Getenv("GOVC_VERIF_ROOT"); v != "" {
+		return v
+	}
+	return "/verif"
 }
